@@ -60,7 +60,13 @@ func c12EncryptObserved(c c12Enc, segs []int) ([]byte, error) {
 			}
 			// the caller's buffer is reused (overwritten) right after Write returns
 			scratch := append([]byte{}, plain[accepted:accepted+s]...)
-			n, err := w.Write(scratch)
+			var n int
+			var err error
+			if (accepted+s+len(segs))%3 == 0 {
+				n, err = io.WriteString(w, string(scratch)) // uses a WriteString method when there is one
+			} else {
+				n, err = w.Write(scratch)
+			}
 			for i := range scratch {
 				scratch[i] = 0x5A
 			}
